@@ -6,7 +6,7 @@
     for, each once, each with the span of the name of one of its definitions in the source
     grammar; and the accepted command and expression are computed without the bookkeeping. *)
 From CG Require Import Base.Prelude Model.Ast Model.Check Spec.Choice Spec.Mistakes Spec.Warnings.
-From CG Require Import Proofs.CheckLemmas Proofs.CheckWarnings.
+From CG Require Import Proofs.CheckLemmas Proofs.CheckWarnings Proofs.CheckOrder.
 From CGgen Require Import Consts.
 
 Theorem C15_unused_plain :
@@ -52,6 +52,23 @@ Check C15_harmless :
     = from_grammar_core builtins g sh.
 Print Assumptions C15_harmless.
 
+(** Deleting every definition whose name no statement refers to (exactly the definitions the
+    two "unused" warnings are about, plus definitions for other shells) changes neither the
+    verdict nor the command nor the validated expression: the definitions warned about are
+    dead, the warning is only a warning. *)
+Theorem C15_unused_removable :
+  forall builtins g sh v,
+    from_grammar builtins g sh = Ok v ->
+    exists v', from_grammar builtins (remove_unused g) sh = Ok v'
+               /\ v_command v' = v_command v /\ v_expr v' = v_expr v.
+Proof. exact remove_unused_harmless. Qed.
+Check C15_unused_removable :
+  forall builtins g sh v,
+    from_grammar builtins g sh = Ok v ->
+    exists v', from_grammar builtins (remove_unused g) sh = Ok v'
+               /\ v_command v' = v_command v /\ v_expr v' = v_expr v.
+Print Assumptions C15_unused_removable.
+
 (** Non-vacuity: an accepted grammar with one unused plain definition, one unused definition
     for the target shell, a used definition reached only through another one, and an unused
     definition for another shell (not reported). *)
@@ -69,6 +86,7 @@ Example ex_C15_inhabited :
   (exists v, from_grammar builtins ex_g Bash = Ok v
              /\ v_unused v = [("U", ex_sp 4)] /\ v_unused_specs v = [("T", ex_sp 6)])
   /\ unused_plain ex_g = ["U"] /\ unused_for_shell ex_g Bash = ["T"]
-  /\ unused_for_shell ex_g Zsh = [].
+  /\ unused_for_shell ex_g Zsh = []
+  /\ List.length (remove_unused ex_g) = 4%nat.
 Proof. vm_compute. split; [eexists; split; [reflexivity|split; reflexivity]|repeat split; reflexivity]. Qed.
 Print Assumptions ex_C15_inhabited.
